@@ -174,6 +174,9 @@ func Run(t *testing.T, r *vk.Rec, opt Options) {
 // the first batch with a violation.
 func RunPrograms(t *testing.T, r *vk.Rec, opt Options, all []*xsugar.Program) {
 	oracle := opt.Oracle
+	if oracle == nil {
+		t.Fatalf("sugarcheck: Options.Oracle is nil (register it with NewOracle at package level)")
+	}
 	n := len(all)
 	const batch = 40
 	failed := false
